@@ -28,6 +28,14 @@ Theorem C15_source_literals :
 Proof. exact gen_scram_literals. Qed.
 Print Assumptions C15_source_literals.
 
+(* T1: the nonce test of handleServerFirstResponse is the source's  len(a.nonce) == 0 || !bytes.HasPrefix(combinedNonce, a.nonce)
+   over combinedNonce := parts[0][2:] (any other shape is untranslatable and breaks this obligation); the model uses it, so
+   the server-first the theorems speak of has a nonce that EXTENDS (has as prefix) the client nonce: is_prefix cn combined *)
+Theorem C15_source_nonce_check : forall nonce_nil has_prefix,
+  Gen.scram_nonce_check nonce_nil has_prefix = nonce_nil || negb has_prefix.
+Proof. exact gen_nonce_check. Qed.
+Print Assumptions C15_source_nonce_check.
+
 (* For every reply script: success implies that the script has the shape
      l0 ++ [empty challenge e] ++ tail ++ [success reply] ++ rest
    where [tail] contains NO further empty challenge (the exchange started by [e] is the one RUNNING when the success reply
